@@ -139,7 +139,8 @@ class PlanBuilder:
         canon = cxxlib.canon(this)
         pyname = pyname or (c.name + ref_inst.inst_suffix(combo))
         rec = {'py': self._pypath(pypath if pypath is not None else path) + [pyname], 'class': canon, 'ctors': [], 'methods': [], 'statics': [],
-               'props': [], 'ops': [], 'enums': [], 'base': None, 'virtual': c.virtual}
+               'props': [], 'ops': [], 'enums': [], 'base': None, 'virtual': c.virtual,
+               'dunders': [m.name for m in c.members if m.k == 'Dunder']}
         if c.base is not None:
             b = ref_inst.subst(c.base, env, this)
             rec['base'] = cxxlib.canon(b)
